@@ -260,6 +260,9 @@ func sanitizeAnchor(s string) string {
 
 // autoProps: which properties own the generated safety obligations of this function.
 func (e *Enc) autoProps() []string {
+	if e.c != nil && len(e.c.AutoProps) > 0 {
+		return e.c.AutoProps
+	}
 	if e.pkg == nil {
 		return nil
 	}
@@ -408,8 +411,49 @@ func (e *Enc) comp0(name, sort string) Term {
 	}
 	e.compSort[name] = sort
 	c := "c0_" + sanitize(name)
-	e.decls.add("const:"+c, fmt.Sprintf("(declare-const %s %s)", c, sort))
+	if !e.decls.seen["const:"+c] {
+		e.decls.add("const:"+c, fmt.Sprintf("(declare-const %s %s)", c, sort))
+		e.preHeapAxiom(name, c)
+	}
 	return Term{c, sort}
+}
+
+// preHeapAxiom: at function entry the heap is closed under reachability: what a field of a pre-existing object
+// refers to was itself allocated before the call (so it can never alias an object this activation allocates).
+func (e *Enc) preHeapAxiom(name, c string) {
+	if !strings.HasPrefix(name, "H:") || e.P == nil {
+		return
+	}
+	i := strings.LastIndex(name, ".")
+	if i < 3 {
+		return
+	}
+	t, err := e.P.resolveType(name[2:i], e.pkg)
+	if err != nil {
+		return
+	}
+	st, ok := t.Underlying().(*types.Struct)
+	if !ok {
+		return
+	}
+	for k := 0; k < st.NumFields(); k++ {
+		f := st.Field(k)
+		if f.Name() != name[i+1:] {
+			continue
+		}
+		var ref string
+		switch f.Type().Underlying().(type) {
+		case *types.Pointer, *types.Map, *types.Chan:
+			ref = fmt.Sprintf("(select %s o)", c)
+		case *types.Slice:
+			e.declSlice()
+			ref = fmt.Sprintf("(sl_base (select %s o))", c)
+		default:
+			return
+		}
+		e.root(I(0))
+		e.decls.add("ax:pre:"+c, fmt.Sprintf("(assert (forall ((o Int)) (! (=> (< (root o) hwm0) (< (root %s) hwm0)) :pattern ((select %s o)))))", ref, c))
+	}
 }
 
 func (e *Enc) zero(t types.Type) Term {
@@ -1185,8 +1229,15 @@ func (e *Enc) prepareCFG() ([]*ssa.BasicBlock, bool) {
 		e.loops[h].ordinal = i
 		if e.c != nil {
 			e.loops[h].spec = e.c.Loops[i]
-			if e.loops[h].spec == nil && len(e.c.DefaultInv) > 0 {
-				e.loops[h].spec = &LoopSpec{Invariants: e.c.DefaultInv}
+			if len(e.c.DefaultInv) > 0 {
+				// default invariants apply to every loop, in addition to the loop's own clauses
+				ls := &LoopSpec{Invariants: append([]Clause(nil), e.c.DefaultInv...)}
+				if own := e.c.Loops[i]; own != nil {
+					ls.Invariants = append(ls.Invariants, own.Invariants...)
+					ls.Decreases = own.Decreases
+					ls.Progress = own.Progress
+				}
+				e.loops[h].spec = ls
 			}
 		}
 	}
